@@ -475,6 +475,11 @@ class Gen:
         G = [obj("point", (), "point", [[x + rng.randint(0, 1) if j < d else x for j, x in enumerate(b)]],
                  {"how": "hom", "dt": "i"}) for b in base]
         kc = self.kcoll or rng.choice([1, 2, 3])
+        if cfg.get("narrow"):
+            # objects stored in single precision / narrow integers (sensor data, pixel grids): every run of such a
+            # configuration has at least these, whatever pg.dt() draws for the others
+            obj("point", (), "point", [pt()], {"how": "hom", "dt": "f32"})
+            obj("point", (kc,), "pointcoll", [[pt() for _ in range(kc)]], {"dt": rng.choice(["f32", "i16", "i32"])})
         pc1 = obj("point", (kc,), "pointcoll", [[pt() for _ in range(kc)]], {"dt": pg.dt()})
         pc2 = obj("point", (kc,), "pointcoll", [[[x + (1 if j == 0 else 0) * 5 for j, x in enumerate(pt())] for _ in range(kc)]],
                   {"dt": "i"})
